@@ -169,8 +169,10 @@ class SimFS:
         """Atomic replace; the durable state of dst becomes that of src."""
         self.files[dst] = self.files.pop(src)
 
-    def set_text(self, path, text, durable=True):
-        self.files[path] = {"visible": text, "durable": text if durable else None}
+    def set_text(self, path, text):
+        """Replace the visible content (an un-synced edit); the durable layer is left as it is."""
+        ent = self.files.setdefault(path, {"visible": "", "durable": None})
+        ent["visible"] = text
 
     def crash(self, torn=None):
         """Process death: keep only durable state; `torn` = {path: k} keeps k chars of un-synced text."""
